@@ -30,6 +30,21 @@ def _pio():
     return pio
 
 
+def _fresh(text):
+    """an equal string that is a different object (not interned, not the registry's key)"""
+    if not isinstance(text, str) or len(text) < 2:
+        return text
+    return "".join(list(text))
+
+
+def _forms(libs):
+    """the same library list handed over as every kind of iterable the signature allows"""
+    if libs is None:
+        return [("list", None)]
+    return [("list", list(libs)), ("tuple", tuple(libs)), ("iterator", iter(list(libs))), ("generator", (x for x in list(libs))), ("map", map(str, list(libs))),
+            ("dict-keys", dict.fromkeys(libs).keys()), ("filter", filter(lambda x: True, list(libs)))]
+
+
 def board_variants(board: str) -> List[str]:
     out = {board.upper(), board.lower(), board.swapcase(), board + " ", " " + board, board + "x", "x" + board, board[:-1], board[1:], board + "\n", board.replace("_", "-"), board.replace("-", "_")}
     out.discard(board)
@@ -63,7 +78,8 @@ def check_validate(report: Report, tier: str) -> dict:
             n += 1
             want = plat in registry and board in registry[plat]
             try:
-                pio.validate_platform_board(plat, board)
+                # equal-valued strings built at run time (as read from a file / the command line), never the registry's objects
+                pio.validate_platform_board(_fresh(plat), _fresh(board))
                 got, exc = True, None
             except ValueError as e:
                 got, exc = False, e
@@ -111,10 +127,11 @@ def check_projects(report: Report, tier: str) -> dict:
         (base / "sentinel" / "keep.txt").write_text("keep")
         (base / "outside.txt").write_text("outside")
 
-        def one(board, port, libs, source, reuse=False):
+        def one(board, port, libs, source, reuse=False, want_libs_of=None, label=""):
             nonlocal n
             n += 1
-            platform = pio.BOARD_TO_PLATFORM[board]
+            platform = _fresh(pio.BOARD_TO_PLATFORM[board])
+            board = _fresh(board)
             proj = base / "proj"
             if proj.exists() and not reuse:
                 shutil.rmtree(proj)
@@ -149,7 +166,7 @@ def check_projects(report: Report, tier: str) -> dict:
                     else:
                         sec = cp[secs[0]]
                         want_libs: List[str] = []
-                        for entry in libs or []:
+                        for entry in (want_libs_of if want_libs_of is not None else libs) or []:
                             if entry and entry not in want_libs:
                                 want_libs.append(entry)
                         got = {k: sec[k] for k in sec}
@@ -162,7 +179,7 @@ def check_projects(report: Report, tier: str) -> dict:
                         elif "lib_deps" in sec and not want_libs:
                             err = "empty lib_deps key written"
             if err:
-                case = {"board": board, "port": port, "libs": libs, "source_sha": hashlib.sha256(source.encode()).hexdigest()[:12], "source_len": len(source)}
+                case = {"board": board, "port": port, "libs": list(want_libs_of) if want_libs_of is not None else libs, "form": label, "source_sha": hashlib.sha256(source.encode()).hexdigest()[:12], "source_len": len(source)}
                 report.violation(explore.history_key(ID, "project", [("case", (json.dumps(case, sort_keys=True),), {})]), f"write_project {case}: {err}", {"subject": "project", **case, "source": source[:2000]})
 
         board_step = 1 if tier == "thorough" else 3
@@ -185,6 +202,47 @@ def check_projects(report: Report, tier: str) -> dict:
         if tier != "thorough":
             for libs in itertools.product(rich_alpha[:6], repeat=3):
                 one("uno", "COM3", list(libs), sources[0])
+        # the same library list as list / tuple / one-shot iterator / generator / map / dict view / filter: same file
+        for libs in [[], ["Servo"], ["", "Servo"], ["Servo", ""], ["", "Servo", "LiquidCrystal", "Servo"], ["Servo", "LiquidCrystal"], ["LiquidCrystal", "Servo", "Servo"], ["", ""], ["Servo", "Servo"],
+                     ["A", "B", "C", "A", "", "B"]]:
+            for form_name, form in _forms(libs):
+                one("uno", "COM3", form, sources[3], want_libs_of=libs, label=f"lib_deps given as {form_name}")
+        # project directories whose spelling mentions the home directory / the environment / has blanks: the files are
+        # created in exactly the directory given (relative to the cwd), never anywhere else
+        cwd0, home0 = os.getcwd(), os.environ.get("HOME")
+        sandbox = base / "cwd"
+        fake_home = base / "home"
+        sandbox.mkdir()
+        fake_home.mkdir()
+        try:
+            os.chdir(sandbox)
+            os.environ["HOME"] = str(fake_home)
+            for rel in ("blink", "~", "~/blink", "~root/blink", "$HOME/blink", "${HOME}", "a b/c d", "./x/../y", "%TEMP%/p", "~~", ".hidden/p", "x/~/y"):
+                n += 1
+                target_dir = Path(rel)
+                err = None
+                try:
+                    pio.write_project(target_dir, sources[3], port="COM3", platform="atmelavr", board="uno", lib_deps=["Servo"])
+                except Exception as e:  # noqa: BLE001
+                    err = f"raised {type(e).__name__}: {e}"
+                if err is None:
+                    want_files = sorted(str((sandbox / rel / f)) for f in ("platformio.ini", "src/main.cpp"))
+                    got_files = sorted(os.path.join(sandbox, os.path.relpath(str(p), str(sandbox))) for p in sandbox.rglob("*") if p.is_file())
+                    norm = lambda xs: sorted(os.path.normpath(x) for x in xs)
+                    if norm(got_files) != norm(want_files):
+                        err = f"files created: {norm(got_files)}, expected {norm(want_files)}"
+                    elif any(fake_home.iterdir()):
+                        err = f"files appeared under $HOME: {[str(p) for p in fake_home.rglob('*')]}"
+                if err:
+                    report.violation(explore.history_key(ID, "project-dir", [("dir", (rel,), {})]), f"write_project into the relative directory {rel!r}: {err}", {"subject": "project-dir", "dir": rel})
+                for child in list(sandbox.iterdir()) + list(fake_home.iterdir()):
+                    shutil.rmtree(child, ignore_errors=True) if child.is_dir() else child.unlink()
+        finally:
+            os.chdir(cwd0)
+            if home0 is None:
+                os.environ.pop("HOME", None)
+            else:
+                os.environ["HOME"] = home0
         # histories: regenerate into the SAME project directory (same length / shorter / longer / identical sources)
         # the same text with other line ends: the file on disk is always the source given LAST, byte for byte
         for a_text, b_text in itertools.permutations(["a();\nb();\n", "a();\r\nb();\r\n", "a();\rb();\r", "a();\nb();", "a();\n\nb();\n"], 2):
@@ -231,7 +289,7 @@ def main(tier: str, seed: int, only=None) -> int:
 def replay(path: str) -> int:
     report = Report(ID, LEVEL, "thorough", 0)
     data = json.loads(open(path).read())
-    if data.get("subject") == "project":
+    if data.get("subject") in ("project", "project-dir"):
         check_projects(report, "thorough")
     else:
         check_validate(report, "thorough")
